@@ -21,12 +21,12 @@ theorem map_id_of {α} (f : α → α) : (l : List α) → (∀ x ∈ l, f x = x
 theorem clauses_specS (cs : List Str) (h1 : ∀ c ∈ cs, 44 ∉ c) (h2 : ∀ c ∈ cs, strip c = c) (h3 : ∀ c ∈ cs, c ≠ []) :
     clauses (specS cs) = cs := by
   cases cs with
-  | nil => simp [clauses, specS, splitOn, strip]
+  | nil => simp [clauses, SSet.clauses, specS, splitOn, strip]
   | cons c cs' =>
     have hs : splitOn 44 (specS (c :: cs')) = c :: cs' := by
       rw [specS, tailS_flatten]
       exact SS.splitOn_items 44 c cs' (h1 c (by simp)) (fun i hi => h1 i (by simp [hi]))
-    unfold clauses
+    unfold clauses SSet.clauses
     rw [hs]
     rw [map_id_of strip _ h2, List.filter_eq_self]
     intro x hx
@@ -40,8 +40,10 @@ theorem parseAll_map (ms : List S.Spec) (h : ∀ sp ∈ ms, S.parseSpec sp.str =
   induction ms with
   | nil => rfl
   | cons sp ms ih =>
-    simp only [List.map_cons, parseAll, h sp (by simp), ih (fun x hx => h x (by simp [hx]))]
-    rfl
+    simp only [List.map_cons, parseAll, SSet.parseAll, h sp (by simp)]
+    have := ih (fun x hx => h x (by simp [hx]))
+    simp only [parseAll] at this
+    rw [this]
 
 /-- a list whose members have pairwise different keys is its own `frozenset` -/
 theorem foldl_insertSpec : (l acc : List S.Spec) → ((acc ++ l).map key).Nodup → l.foldl insertSpec acc = acc ++ l
